@@ -74,6 +74,11 @@ def C14():
         jobs.append(Kani("c14_h14d_zero_at_call_%d" % k, "zero-then-progress: write call %d accepts nothing, the others a solver-chosen non-empty prefix: Link::write returns Ok only if every byte reached the stream" % k,
                          tiers=("quick", "thorough") if k == 1 else ("thorough",), bounds={"payload": 3, "zero_at": k, "unwind": 6}, symbolic=["data", "accepted prefix per write"],
                          functions=["model::link::Link::write", "model::link::Stream::write", "std::io::Write::write_all"], timeout=400, mem_gb=6))
+    jobs.append(Kani("c14_h14e_consecutive_writes", "four messages of 4, 2, 0 and 1 symbolic bytes through ONE Link under solver-chosen short writes: if all four calls return Ok the stream holds exactly their concatenation (no byte of an earlier message is sent again, none is held back)",
+                     bounds={"messages": "4 + 2 + 0 + 1 bytes", "schedule": "each write accepts 1..=len (symbolic)", "unwind": 16}, symbolic=["data", "accepted prefix per write"],
+                     functions=["model::link::Link::write", "model::link::Stream::write", "<Vec<u8> as Message>::write"], timeout=600, mem_gb=8))
+    jobs.append(MirJob("c14_mir_link_write_stateless", "Link::write: the bytes handed to Stream::write are the contents of a buffer created inside this call (Cursor::new(Vec::new())), filled by exactly one Message::write of the argument; no field of the link other than the stream is read or written",
+                       mirjobs.link_write_stateless))
     jobs.append(MirJob("c14_mir_stream_write", "Stream::write hands the whole buffer to Write::write_all in both arms (complete-or-error); a hand-written retry loop is only accepted if a native battery of caps / zero-length writes / injected errors finds no Ok with bytes missing",
                        mirjobs.stream_write_all))
     jobs.append(MirJob("c14_mir_tpkt_write", "tpkt::Client::write: the u16 handed to tpkt_header equals Message::length() and length()+4 fits 16 bits on every path that sends (else Err); frame is [header, message]; Link::write's result is returned unchanged; same shape for x224::Client::write",
@@ -99,6 +104,13 @@ def C19():
                          symbolic=["left", "top", "right", "bottom", "width", "height", "window pixels", "image bytes"],
                          functions=["mstsc-rs::fast_bitmap_transfer", "mstsc-rs::transmute_vec", "core::event::BitmapEvent::decompress (raw 32 bpp arm)"],
                          timeout=900, mem_gb=10))
+    for name, w, h, d, sp, q in (("2x2_d8_spare", 2, 2, 8, 16, True), ("1x2_d4_spare", 1, 2, 4, 4, False)):
+        jobs.append(Kani("c19_blit_" + name,
+                         "same, with an image vector whose capacity exceeds its length by %d bytes (%dx%d window, %d image bytes): Ok => the rectangle needs no pixel beyond the image's length; exact blit" % (sp, w, h, d),
+                         tiers=("quick", "thorough") if q else ("thorough",), ptr_checks=True,
+                         bounds={"window": "%dx%d" % (w, h), "image_bytes": d, "spare_capacity": sp, "rectangle": "4 x any u16", "image w/h": "any u16"},
+                         symbolic=["left", "top", "right", "bottom", "width", "height", "window pixels", "image bytes"],
+                         functions=["mstsc-rs::fast_bitmap_transfer", "mstsc-rs::transmute_vec"], timeout=900, mem_gb=10))
     return Prop("C19", [("core/event.rs", "gui.rs")], jobs, lowerings=["L4"],
                 assumptions=[DEV, "L4: the two GUI functions are cut text-identically from src/bin/mstsc-rs.rs and compiled inside the library crate (minifb/clap never compiled)",
                              "CBMC pointer checks ON (the code is `unsafe`)", "image delivered as raw 32 bpp (decompress returns the data unchanged); other depths are C08's subject"],
@@ -143,8 +155,9 @@ def C07():
                mirjobs.size_closures(r"^(negotiate_message|challenge_message|authenticate_message|av_pair)::", 131072, "NLA")),
         MirJob("c07_mir_payload_field", "ntlm::get_payload_field: for every 16-bit length and 32-bit offset no arithmetic check can fail (message.length() >= payload.len())",
                mirjobs.fn_asserts(r"^get_payload_field$", "CHALLENGE buffer offsets", call_model=mirjobs.ntlm_payload_model, assume=mirjobs.ntlm_payload_assume, native=lambda m: mirjobs.NLA_NATIVES[r"^get_payload_field$"])),
-        MirJob("c07_mir_panic_sites", "NLA read path (read_ts_server_challenge, read_ts_validate, read_public_certificate, read_challenge_message, get_payload_field, read_target_info, gss_unwrapex): every reachable unwrap/expect/index/panic call is on a justified allow-list",
-               mirjobs.panic_sites(mirjobs.NLA_TARGETS, mirjobs.NLA_NATIVES)),
+        MirJob("c07_mir_panic_sites", "NLA read path (read_ts_server_challenge, read_ts_validate, read_public_certificate, read_challenge_message, get_payload_field, read_target_info, gss_unwrapex) and every other function defined in nla/ntlm.rs and nla/cssp.rs (the AUTHENTICATE builder and the key derivations run on server-chosen sizes): every reachable unwrap/expect/index/panic call is on a justified allow-list",
+               mirjobs.multi(mirjobs.panic_sites(mirjobs.NLA_TARGETS, mirjobs.NLA_NATIVES),
+                             mirjobs.panic_sites_in_files(["src/nla/ntlm.rs", "src/nla/cssp.rs"], mirjobs.NLA_FILE_ALLOW, default_native=mirjobs.NLA_NATIVES[r"read_challenge_message$"]))),
         MirJob("c07_mir_no_read_loops", "no function of nla/cssp.rs contains a loop: the CredSSP exchange reads each server message once and cannot spin on a closed or stalled connection", mirjobs.acyclic("src/nla/cssp.rs", native=mirjobs.CSSP_HOSTILE_NATIVE)),
         MirJob("c07_mir_arith", "read_challenge_message / gss_unwrapex / read_target_info: no arithmetic check of their own can fail on wire values",
                mirjobs.multi(mirjobs.fn_asserts(r"ntlm::<impl at src/nla/ntlm\.rs[^>]*>::gss_unwrapex$", "sealed token"),
@@ -282,6 +295,8 @@ def C02():
         Kani("c02_negotiation_values", "NegotiationType::try_from accepts exactly {1,2,3} of all u8; Protocols::try_from accepts exactly {0,1,2,8} of all u32", bounds={"type": "all u8", "protocol": "all u32"},
              symbolic=["t: u8", "p: u32"], functions=["core::x224::NegotiationType::try_from", "core::x224::Protocols::try_from"], timeout=400, mem_gb=4),
     ]
+    jobs.append(MirJob("c02_mir_tpkt_certificate_policy", "tpkt::Client::start_ssl / start_nla: the bool given to Link::start_ssl is the check_certificate parameter itself on every path, whatever the mode flags are; cssp_connect gets the caller's restricted-admin flag",
+                       mirjobs.tpkt_security_wiring))
     return Prop("C02", [("core/tpkt.rs", "tpkt.rs"), ("core/x224.rs", "x224.rs")], jobs, lowerings=["L2"],
                 assumptions=[S6, DEV, "E3: results of calls are unconstrained symbols; the selected protocol is the enum discriminant read from read_connection_confirm's Ok value"],
                 text="The selection-vs-offer and TLS-first rules decided on the MIR of the real x224::Client::connect: for every selected protocol value and every offered mask (SMT), an Ok return implies selected in {SSL, Hybrid}, selected & offered != 0 and a completed start_ssl/start_nla; credential-bearing calls are behind TLS by fixedpoint reachability in start_nla and Connector::connect.",
